@@ -212,6 +212,26 @@ pub fn c09(ctx: &Ctx) {
 								worst_ratio_milli = worst_ratio_milli.max((st.peak_live as f64 / bound * 1000.0) as u64);
 							}
 						}
+						// MODERATE counts (below any "obviously hostile" threshold) with nothing behind them:
+						// each level may reserve its fixed window, not count * element size
+						if payload.is_empty() && !empty_elems && !is_bits {
+							for c in [63u128, 1000, 16_384] {
+								let b4 = build(c);
+								rep.begin(|| format!("C09 {} moderate-count {c} {:?} mark {mi}", ops.name, via));
+								let (s4, _ok4, d4) = measure(ops, &b4, via);
+								rep.evaluations += 1;
+								rep.count("moderate_count_cases");
+								let bound = 16.0 * alpha * d4 as f64 + beta;
+								worst_ratio_milli = worst_ratio_milli.max((s4.peak_live as f64 / bound * 1000.0) as u64);
+								if s4.peak_live as f64 > bound {
+									rep.violation(
+										&format!("linear-bound:{}", ops.name),
+										format!("{}: count prefix #{mi} claiming {c} elements with no payload via {:?}: peak {} live bytes (largest request {}) for {} delivered bytes, above the bound {:.0}", ops.name, via, s4.peak_live, s4.max_request, d4, bound),
+										replay_json("C09", ops, &b4, &[("via", jstr(&format!("{:?}", via))), ("claimed", c.to_string())]),
+									);
+								}
+							}
+						}
 						// a PLAUSIBLE count: exactly as many elements as payload bytes follow. Nothing about
 						// such a count justifies reserving more than the delivered bytes can fill.
 						if !payload.is_empty() && !empty_elems && !is_bits {
@@ -458,7 +478,7 @@ pub fn c11(ctx: &Ctx) {
 /// Adversarially deep input for recursive types on a small fixed-size stack (release build, run
 /// in a child of its own so that a stack overflow is attributable).
 fn c11_deep(ctx: &Ctx, rep: &mut Report) {
-	let names = ["List", "Tree", "MapRec", "Box<List>", "Rc<Tree>", "EFields"];
+	let names = ["List", "Tree", "MapRec", "Box<List>", "Rc<Tree>", "EFields", "WList"];
 	let depths: &[usize] = if ctx.tier == Tier::Thorough { &[1_000, 100_000, 1_000_000] } else { &[1_000, 100_000] };
 	for (ti, name) in names.iter().enumerate() {
 		if ti % ctx.nshards != ctx.shard {
@@ -469,7 +489,7 @@ fn c11_deep(ctx: &Ctx, rep: &mut Report) {
 		for &dp in depths {
 			let mut b = Vec::with_capacity(dp * 3 + 8);
 			match *name {
-				"List" | "Box<List>" => {
+				"List" | "Box<List>" | "WList" => {
 					for i in 0..dp {
 						b.push(1);
 						b.push(i as u8);
